@@ -445,7 +445,8 @@ pub fn buffered(spec: &crate::Spec) -> Report {
                 None => rx.drain(),
             }
         };
-        let mut model = Model::new(cap, b"\n", faults);
+        // real refusals occur with faults injected, and on UDP whenever more than 65507 bytes are due
+        let mut model = Model::new(cap, b"\n", faults || (which == "udp" && cap > 65507));
         let mut tally = Tally::default();
         let mut broken = false;
         let ctx = format!("{} buffered sink capacity {:?} history {:?}", which, cap_opt, hist);
